@@ -8,6 +8,11 @@ import Usual.C07.AATree
     cmp sign|diff|sat            (all trees re-created; comparator variant of the harness — the model's
                                   comparator is the integer order in every case; under `diff` keys with
                                   |K| ≥ 2^30 are bad-op)
+    height                       (`hb=<0|1> ## h=<height> n=<nodes> lim=<2*floor(log2(n+1))>`)
+    bulk asc|desc|alt|rnd N [S]  (insert N keys without per-op output, one summary line `bulk=<linked> c=..`)
+    nwalk O I tM i1,i2,..        (nested walks: outer walk of the addressed tree in order O; at visit numbers
+                                  i1<i2<.. the walker runs a complete walk of tree M in order I.  The model's
+                                  walks are pure functions of the tree: every sequence is what a plain walk gives)
     reins K                      (insert K again with the node already linked for K; nothing if absent)
     perms n ilo ihi jlo jhi      (range-hash over insertion order × removal order of 1..n)
 
@@ -181,6 +186,64 @@ def doPerms (sat : Bool) (a b c d e : String) : Option String :=
       some s!"ph={hex64 ho} ## {hex64 hi}"
   | _, _, _, _, _ => none
 
+/-! ### big trees and nested walks -/
+
+def mix64 (z : UInt64) : UInt64 :=
+  let z := z * 0x9E3779B97F4A7C15
+  let z := (z ^^^ (z >>> 30)) * 0xBF58476D1CE4E5B9
+  let z := (z ^^^ (z >>> 27)) * 0x94D049BB133111EB
+  z ^^^ (z >>> 31)
+
+/-- key sequence of `bulk` (same as the harness) -/
+def bulkKeys (kind : String) (n seed : Nat) : List K :=
+  let asc := (List.range n).map fun i => Int.ofNat (i + 1)
+  if kind == "asc" then asc
+  else if kind == "desc" then asc.reverse
+  else if kind == "alt" then
+    -- 1, n, 2, n-1, ...
+    (List.range n).map fun t => if t % 2 == 0 then Int.ofNat (t / 2 + 1) else Int.ofNat (n - t / 2)
+  else
+    (List.range n).map fun i =>
+      Int.ofNat ((mix64 (UInt64.ofNat (seed * 4294967296 + i + 1))) >>> 35).toNat
+
+def doBulk (s : State K) (kind : String) (n seed : Nat) : State K × String :=
+  let (s', linked) := (bulkKeys kind n seed).foldl (fun (acc : State K × Nat) k =>
+    let (s', out) := step cmpK acc.1 (.ins k)
+    (s', match out with | .linked true => acc.2 + 1 | _ => acc.2)) (s, 0)
+  let s'' : State K := { s' with log := [] }
+  (s'', mutLine s!"bulk={linked}" s'' [])
+
+def heightLine (s : State K) : String :=
+  let n := size s.root
+  s!"hb={b01 (heightOk s.root)} ## h={height s.root} n={n} lim={2 * Nat.log2 (n + 1)}"
+
+def parseOrder : String → Option Walk
+  | "in" => some .inOrder
+  | "pre" => some .preOrder
+  | "post" => some .postOrder
+  | _ => none
+
+def canon (w : Walk) (l : List K) : List K :=
+  match w with
+  | .inOrder => l
+  | _ => l.mergeSort (fun a b => decide (a ≤ b))
+
+def parseIdxs (s : String) : Option (List Nat) :=
+  let parts := s.splitOn ","
+  let vals := parts.filterMap parseNat
+  if vals.length != parts.length || vals.length > 8 || vals.isEmpty then none
+  else if (vals.zip (vals.drop 1)).all (fun p => p.1 < p.2) then some vals else none
+
+/-- nested walks: the walker, at the given visit numbers of the outer walk, runs a complete inner
+    walk.  `walkSub` is a pure function, so each sequence is simply the plain walk. -/
+def nwalkLine (outer inner : State K) (oo io : Walk) (idxs : List Nat) : String :=
+  let o := walkSub outer.root oo
+  let i := walkSub inner.root io
+  let hit := idxs.filter (· < o.length)
+  let obs := hit.foldl (fun acc ix => acc ++ s!" i{ix}={showKeys (canon io i)}") s!"nw={showKeys (canon oo o)}"
+  let int := hit.foldl (fun acc _ => acc ++ s!" {showKeys i}") (showKeys o)
+  s!"{obs} ## {int}"
+
 /-- comparator variant of the harness: 0 sign, 1 plain difference, 2 saturated difference -/
 structure DS where
   mode : Nat
@@ -216,10 +279,33 @@ def treeOp (mode : Nat) (nocb : Bool) (s : State K) (ws : List String) : Option 
       -- aatree_destroy calls the callback unconditionally: not exercised without one
       if nocb && !isNil s.root then none else some (doOp s .destroy)
   | ["count"] => some (doOp s .count)
+  | ["height"] => some (s, heightLine s)
+  | ["bulk", kind, n] =>
+      if kind == "asc" || kind == "desc" || kind == "alt" then
+        (parseNat n).bind fun n => if n < 1 || n > 200000 then none else some (doBulk s kind n 0)
+      else none
+  | ["bulk", "rnd", n, sd] =>
+      (parseNat n).bind fun n => (parseNat sd).bind fun sd =>
+        if n < 1 || n > 200000 then none else some (doBulk s "rnd" n sd)
   | _ => none
+
+def DS.tree (d : DS) : String → Option (State K)
+  | "t0" => some d.t0
+  | "t1" => some d.t1
+  | "t2" => some d.t2
+  | _ => none
+
+def doNwalk (d : DS) (outer : State K) (o i t ix : String) : Option String :=
+  match parseOrder o, parseOrder i, d.tree t, parseIdxs ix with
+  | some oo, some io, some inner, some idxs => some (nwalkLine outer inner oo io idxs)
+  | _, _, _, _ => none
 
 def stepLine (d : DS) (line : String) : DS × String :=
   match words line with
+  | ["nwalk", o, i, t, ix] => (d, (doNwalk d d.t0 o i t ix).getD "bad-op")
+  | ["t0", "nwalk", o, i, t, ix] => (d, (doNwalk d d.t0 o i t ix).getD "bad-op")
+  | ["t1", "nwalk", o, i, t, ix] => (d, (doNwalk d d.t1 o i t ix).getD "bad-op")
+  | ["t2", "nwalk", o, i, t, ix] => (d, (doNwalk d d.t2 o i t ix).getD "bad-op")
   | ["#case"] => (dsInit 0, "#case")
   | ["cmp", "sign"] => (dsInit 0, "cmp=sign")
   | ["cmp", "diff"] => (dsInit 1, "cmp=diff")
